@@ -628,6 +628,12 @@ Proof.
   { cbn [py_get_str]. destruct (dget d (SK "header")) as [h|] eqn:Dh; [|eauto].
     exists h. split; [reflexivity|]. apply is_dict_hdr_ok. eapply opt_is_get; eauto. }
   destruct Hh as [h [Eh Hh]]. rewrite Eh. cbn [bind].
+  apply safe_bind.
+  { unfold check_unprotected_header. destruct h as [| | | | | |hl|hd0]; try discriminate.
+    - cbn [py_truth]. rewrite andb_false_r. exact I.
+    - destruct (dmem d (SK "protected") && py_truth (PDict hd0)); [|exact I].
+      rewrite py_in_dict. cbn [bind]. destruct (dmem hd0 (SK "b64")); [reflexivity | exact I]. }
+  intros _ _.
   destruct (member_headers_dict p h X Hh) as [hd Ehd]. rewrite Ehd. cbn [bind].
   rewrite py_in_dict. cbn [bind].
   destruct (dmem hd (SK "b64")) eqn:Mb; cbn [negb]; [|rewrite <- EV; apply J0; assumption].
@@ -786,13 +792,13 @@ Proof. vm_compute. auto. Qed.
 
 Definition use_choices_ok : bool :=
   existsb (fun p => String.eqb (hp_name p) "use" &&
-                    match hp_kind p with
-                    | VChoices cs => forallb (fun c => existsb (fun q => String.eqb (fst q) c) use_key_ops_registry) cs
-                    | _ => false
+                    match choices_of (hp_kind p) with
+                    | Some cs => forallb (fun c => existsb (fun q => String.eqb (fst q) c) use_key_ops_registry) cs
+                    | None => false
                     end) (map kp_as_h jwk_parameter_registry) &&
-  (* "use" and "key_ops" are registered exactly once, with a choice validator *)
+  (* "use" and "key_ops" are only registered with a choice validator *)
   forallb (fun p => if String.eqb (hp_name p) "use" || String.eqb (hp_name p) "key_ops"
-                    then match hp_kind p with VChoices _ => true | _ => false end else true)
+                    then match choices_of (hp_kind p) with Some _ => true | None => false end else true)
           (map kp_as_h jwk_parameter_registry) &&
   existsb (fun p => String.eqb (hp_name p) "key_ops") (map kp_as_h jwk_parameter_registry).
 Lemma use_choices_fact : use_choices_ok = true.
@@ -813,6 +819,24 @@ Qed.
 Lemma ops_loop_only l ops : only_value (ops_loop l ops).
 Proof. induction l as [|o r IH]; intros e H; cbn [ops_loop] in H; [discriminate|]. destruct (choice_mem ops o); [eapply IH; eauto | congruence]. Qed.
 
+(* a str accepted by a choice validator is one of the choices *)
+Lemma choice_valid_str k cs s :
+  choices_of k = Some cs -> validate_kind k (PStr s) = Ok tt -> choice_mem cs (PStr s) = true.
+Proof.
+  intros C V. destruct k; try discriminate; inversion C; subst; cbn [validate_kind] in V;
+    destruct (choice_mem cs (PStr s)); congruence.
+Qed.
+
+(* a value accepted by a choice validator is a list or a str: it can be iterated *)
+Lemma choice_valid_iter k cs v :
+  choices_of k = Some cs -> validate_kind k v = Ok tt -> exists l, py_iter v = Ok l.
+Proof.
+  intros C V. destruct k; try discriminate; inversion C; subst; cbn [validate_kind] in V;
+    destruct v; try discriminate; cbn [py_iter]; eauto;
+    match type of V with context [choice_mem ?c ?x] => destruct (choice_mem c x) eqn:CM; [|discriminate] end;
+    destruct (choice_mem_str _ _ CM) as [c [_ Ec]]; discriminate.
+Qed.
+
 Lemma validate_use_ops_only g d :
   g_use_str g = true ->
   validate_registry_header (map kp_as_h jwk_parameter_registry) (PDict d) true = Ok tt ->
@@ -826,18 +850,17 @@ Proof.
   apply andb_true_iff in UF. destruct UF as [UF KO]. apply andb_true_iff in UF. destruct UF as [U1 U2].
   apply existsb_exists in U1. destruct U1 as [pu [Iu U1]]. apply andb_true_iff in U1. destruct U1 as [Nu Ku].
   apply String.eqb_eq in Nu. destruct pu as [nu ku ru]. cbn [hp_name hp_kind] in *. subst nu.
-  destruct ku; try discriminate.
-  pose proof (vrh_member _ _ _ _ _ _ V Iu) as M. rewrite Du in M. cbn [validate_kind] in M.
-  destruct (choice_mem l (PStr s)) eqn:CM; [|discriminate].
-  destruct (find_use_some s l Ku CM) as [[un ops] F]. rewrite F in H.
+  destruct (choices_of ku) as [cs|] eqn:Cu; [|discriminate].
+  pose proof (vrh_member _ _ _ _ _ _ V Iu) as M. rewrite Du in M.
+  pose proof (choice_valid_str _ _ _ Cu M) as CM.
+  destruct (find_use_some s cs Ku CM) as [[un ops] F]. rewrite F in H.
   destruct (getitem_dict_mem _ _ Mk) as [ko [Gk Dk]]. rewrite Gk in H. cbn [bind] in H.
   apply existsb_exists in KO. destruct KO as [pk [Ik Nk]]. apply String.eqb_eq in Nk.
   rewrite forallb_forall in U2. pose proof (U2 pk Ik) as Kk. destruct pk as [nk kk rk]. cbn [hp_name hp_kind] in *. subst nk.
-  rewrite String.eqb_refl, orb_true_r in Kk. destruct kk; try discriminate.
-  pose proof (vrh_member _ _ _ _ _ _ V Ik) as M2. rewrite Dk in M2. cbn [validate_kind] in M2.
-  destruct ko; try (destruct (choice_mem l0 _) eqn:C2; [destruct (choice_mem_str _ _ C2) as [c [_ Ec]]; discriminate | discriminate]).
-  - cbn [py_iter bind] in H. eapply ops_loop_only; eauto.
-  - cbn [py_iter bind] in H. eapply ops_loop_only; eauto.
+  rewrite String.eqb_refl, orb_true_r in Kk. destruct (choices_of kk) as [cs2|] eqn:Ck; [|discriminate].
+  pose proof (vrh_member _ _ _ _ _ _ V Ik) as M2. rewrite Dk in M2.
+  destruct (choice_valid_iter _ _ _ Ck M2) as [l El]. rewrite El in H. cbn [bind] in H.
+  eapply ops_loop_only; eauto.
 Qed.
 
 Lemma validate_dict_key_only g vreg d :
